@@ -44,6 +44,7 @@ void COSyncInit(CO_SYNC *sync, struct CO_NODE_T *node)
     }
     for (i = 0; i < CO_RPDO_N; i++) {
         sync->RPdo[i]  = (CO_RPDO *)0;
+        sync->RNew[i]  = 0;
     }
 }
 
@@ -63,6 +64,7 @@ void COSyncAdd (CO_SYNC *sync, uint16_t num, uint8_t msgType, uint8_t txtype)
         if (sync->RPdo[num] == 0) {
             sync->RPdo[num] = &sync->Node->RPdo[num];
         }
+        sync->RNew[num] = 0;
     }
 }
 
@@ -93,6 +95,7 @@ void COSyncRx(CO_SYNC *sync, CO_IF_FRM *frm)
                 sync->RFrm[i].Data[n] = frm->Data[n];
             }
             sync->RFrm[i].DLC = frm->DLC;
+            sync->RNew[i]     = 1;
             break;
         }
     }
@@ -143,7 +146,9 @@ void COSyncHandler (CO_SYNC *sync)
     }
 
     for (i = 0; i < CO_RPDO_N; i++) {
-        if (sync->RPdo[i] != 0) {
+        /* only a RPDO, received since the last SYNC, is processed */
+        if ((sync->RPdo[i] != 0) && (sync->RNew[i] != 0)) {
+            sync->RNew[i] = 0;
             CORPdoWrite(sync->RPdo[i], &sync->RFrm[i]);
             COPdoSyncUpdate(sync->RPdo[i]);
         }
